@@ -3,7 +3,7 @@
    dashlive/utils/objects.dict_to_cgi_params (no escaping) and the query-string decoding the
    media endpoint applies (werkzeug: '+' -> space, %XX -> byte).  Strings are lists of
    character codes.  Definitions only. *)
-From Verif Require Import Base.Tactics Base.ZList Base.Str.
+From Verif Require Import Base.Tactics Base.ZList Base.Str Model.IsoTimeModel.
 
 (* ------------------------------------------------------------ the URL layer *)
 Definition hexval (c : Z) : option Z :=
@@ -56,7 +56,11 @@ Inductive value :=
   | VInt (n : Z)
   | VOptStr (o : option str)
   | VStr (s : str)
-  | VList (l : list str).
+  | VList (l : list str)
+  | VErrs (l : list (Z * Z))
+  | VSym (s : str)                (* availabilityStartTime: one of the symbolic names *)
+  | VDt (d : dt)                  (* ... or a date-time (Model/IsoTimeModel.v) *)
+  | VDrm (l : list (Z * (bool * bool * bool))).   (* DRM selection: (system 0..2, locations cenc / moov / pro) *)     (* (HTTP status, integer position) pairs of an error-injection option *)
 
 Definition lower_c (c : Z) : Z := if (65 <=? c) && (c <=? 90) then c + 32 else c.
 Definition lower (s : str) : str := map lower_c s.
@@ -88,6 +92,102 @@ Fixpoint split_comma_acc (s cur : str) : list str :=
   end.
 Definition split_comma (s : str) : list str := split_comma_acc s [].
 
+(* urllib.parse.quote_plus over the bytes of the text: letters, digits and _.-~ unchanged, space -> '+',
+   everything else %XX with upper-case hex digits *)
+Definition hexdigit (n : Z) : Z := if n <? 10 then 48 + n else 55 + n.
+Definition url_safe (c : Z) : bool :=
+  ((48 <=? c) && (c <=? 57)) || ((65 <=? c) && (c <=? 90)) || ((97 <=? c) && (c <=? 122))
+  || (c =? 95) || (c =? 46) || (c =? 45) || (c =? 126).
+Fixpoint quote_plus (s : str) : str :=
+  match s with
+  | [] => []
+  | c :: r => (if url_safe c then [c] else if c =? 32 then [43] else [37; hexdigit (c / 16); hexdigit (c mod 16)])
+              ++ quote_plus r
+  end.
+Definition is_byte (c : Z) : bool := (0 <=? c) && (c <? 256).
+
+(* urllib.parse.quote(text, safe=':'): as quote_plus, but ':' is kept and a space is %20 *)
+Fixpoint quote_colon (s : str) : str :=
+  match s with
+  | [] => []
+  | c :: r => (if url_safe c || (c =? 58) then [c] else [37; hexdigit (c / 16); hexdigit (c mod 16)]) ++ quote_colon r
+  end.
+(* SPECIAL_AST_VALUES *)
+Definition special_ast : list str :=
+  [[110; 111; 119]; [116; 111; 100; 97; 121]; [109; 111; 110; 116; 104]; [121; 101; 97; 114]; [101; 112; 111; 99; 104]].
+Definition in_special (s : str) : bool := existsb (str_eqb s) special_ast.
+
+Fixpoint split_on_acc (d : Z) (s cur : str) : list str :=
+  match s with
+  | [] => [rev cur]
+  | c :: r => if c =? d then rev cur :: split_on_acc d r [] else split_on_acc d r (c :: cur)
+  end.
+(* DRM selection: "<system>[-<location>...],..." with the systems clearkey, marlin, playready (DrmSystem.values())
+   and the locations cenc, moov, pro (sorted as _drm_selection_to_string sorts them); "all" when every system is
+   listed with every location *)
+Definition n_clearkey : str := [99; 108; 101; 97; 114; 107; 101; 121].
+Definition n_marlin : str := [109; 97; 114; 108; 105; 110].
+Definition n_playready : str := [112; 108; 97; 121; 114; 101; 97; 100; 121].
+Definition n_cenc : str := [99; 101; 110; 99].
+Definition n_moov : str := [109; 111; 111; 118].
+Definition n_pro : str := [112; 114; 111].
+Definition s_all : str := [97; 108; 108].
+Definition locs := (bool * bool * bool)%type.
+Definition all_locs : locs := (true, true, true).
+Definition locs_eqb (a b : locs) : bool :=
+  let '(a1, a2, a3) := a in let '(b1, b2, b3) := b in Bool.eqb a1 b1 && Bool.eqb a2 b2 && Bool.eqb a3 b3.
+Definition sys_name (s : Z) : str := if s =? 0 then n_clearkey else if s =? 1 then n_marlin else n_playready.
+Definition sys_of (t : str) : option Z :=
+  if str_eqb t n_clearkey then Some 0 else if str_eqb t n_marlin then Some 1 else if str_eqb t n_playready then Some 2 else None.
+Definition fmt_item (i : Z * locs) : str :=
+  let '(s, (c, m, p)) := i in
+  sys_name s ++ (if c && m && p then []
+                 else (if c then 45 :: n_cenc else []) ++ (if m then 45 :: n_moov else []) ++ (if p then 45 :: n_pro else [])).
+Definition is_sys_name (t : str) : bool := match sys_of t with Some _ => true | None => false end.
+Definition is_all (items : list str) : bool :=
+  forallb is_sys_name items && existsb (str_eqb n_clearkey) items && existsb (str_eqb n_marlin) items
+  && existsb (str_eqb n_playready) items.
+Fixpoint starts_with (p s : str) : bool :=
+  match p, s with
+  | [], _ => true
+  | a :: p', b :: s' => (a =? b) && starts_with p' s'
+  | _ :: _, [] => false
+  end.
+Fixpoint parse_locs (parts : list str) (acc : locs) : option locs :=
+  match parts with
+  | [] => Some acc
+  | t :: r => let '(c, m, p) := acc in
+              if str_eqb t n_cenc then parse_locs r (true, m, p)
+              else if str_eqb t n_moov then parse_locs r (c, true, p)
+              else if str_eqb t n_pro then parse_locs r (c, m, true)
+              else None
+  end.
+Definition parse_item (it : str) : option (Z * locs) :=
+  match split_on_acc 45 it [] with
+  | [] => None
+  | [d] => match sys_of d with Some s => Some (s, all_locs) | None => None end
+  | d :: ls => match parse_locs ls (false, false, false), sys_of d with Some L, Some s => Some (s, L) | _, _ => None end
+  end.
+Fixpoint parse_items (items : list str) : option (list (Z * locs)) :=
+  match items with
+  | [] => Some []
+  | i :: r => match parse_item i, parse_items r with Some e, Some l => Some (e :: l) | _, _ => None end
+  end.
+Definition every_system (L : locs) : list (Z * locs) := [(0, L); (1, L); (2, L)].
+
+(* error lists: "<code>=<pos>,<code>=<pos>" (positions that are date-times are outside the model) *)
+Definition fmt_err (e : Z * Z) : str := fmt_int (fst e) ++ 61 :: fmt_int (snd e).
+Definition parse_err (item : str) : option (Z * Z) :=
+  match split_on_acc 61 item [] with
+  | [a; b] => match parse_int a, parse_int b with Some c, Some p => Some (c, p) | _, _ => None end
+  | _ => None
+  end.
+Fixpoint parse_errs (items : list str) : option (list (Z * Z)) :=
+  match items with
+  | [] => Some []
+  | i :: r => match parse_err i, parse_errs r with Some e, Some l => Some (e :: l) | _, _ => None end
+  end.
+
 (* to_string, as written into the URL (None is spelled "none") *)
 Definition fmt (k : kind) (v : value) : option str :=
   match k, v with
@@ -99,6 +199,12 @@ Definition fmt (k : kind) (v : value) : option str :=
   | KStrOrNone, VOptStr (Some s) => Some s
   | KStr, VStr s => Some s
   | KList, VList l => Some (join_comma l)
+  | KUrl, VOptStr None => Some s_none
+  | KUrl, VOptStr (Some s) => Some (quote_plus s)
+  | KErrors, VErrs l => Some (join_comma (map fmt_err l))
+  | KDrm, VDrm l => let items := map fmt_item l in Some (if is_all items then s_all else join_comma items)
+  | KAst, VSym s => Some s
+  | KAst, VDt d => Some (quote_colon (fmt_datetime d))
   | _, _ => None
   end.
 
@@ -114,6 +220,19 @@ Definition parse (k : kind) (s : str) : option value :=
   | KStr => Some (VStr s)
   | KList => if is_none_text s then Some (VList [])
              else Some (VList (filter (fun x => negb (is_none_text x)) (split_comma s)))
+  | KUrl => if is_none_text s then Some (VOptStr None) else Some (VOptStr (Some s))   (* request.args has decoded it; nothing is decoded twice *)
+  | KErrors => if is_none_text s then Some (VErrs [])
+               else match parse_errs (split_comma s) with Some l => Some (VErrs l) | None => None end
+  | KDrm => let v := lower s in
+            if starts_with s_none v || str_eqb v [] then Some (VDrm [])
+            else if starts_with s_all v then
+              (if existsb (Z.eqb 45) v then
+                 match parse_locs (tl (split_on_acc 45 v [])) (false, false, false) with
+                 | Some L => Some (VDrm (every_system L)) | None => None end
+               else Some (VDrm (every_system all_locs)))
+            else match parse_items (split_comma v) with Some l => Some (VDrm l) | None => None end
+  | KAst => if in_special s then Some (VSym s)
+            else match parse_datetime s with DtVal d _ => Some (VDt d) | _ => None end
   | _ => None
   end.
 
@@ -132,8 +251,20 @@ Definition legal (k : kind) (v : value) : bool :=
   | KStrOrNone, VOptStr (Some s) => plain s && negb (is_none_text s)
   | KStr, VStr s => plain s
   | KList, VList l => forallb token_ok l
+  | KUrl, VOptStr None => true
+  | KUrl, VOptStr (Some s) => forallb is_byte s && negb (is_none_text s)      (* ANY text: reserved characters, '+' and '%' included *)
+  | KErrors, VErrs _ => true
+  | KAst, VSym s => in_special s
+  | KAst, VDt d => valid_dt d && valid_off d && match d_off d with Some _ => true | None => false end
   | _, _ => false
   end.
+
+(* DRM selections have their own statement (Proofs: drm_roundtrip): a selection that lists every system with every
+   location is written as "all" and comes back in the repository's order, so the result is the canonical form *)
+Definition legal_item (i : Z * locs) : bool := let '(s, (c, m, p)) := i in (0 <=? s) && (s <=? 2) && (c || m || p).
+Definition legal_drm (l : list (Z * locs)) : bool := forallb legal_item l.
+Definition drm_canon (l : list (Z * locs)) : list (Z * locs) :=
+  if is_all (map fmt_item l) then every_system all_locs else l.
 
 (* ------------------------------------------------------------ the option table *)
 Record orow := { o_name : str; o_cgi : str; o_usage : Z; o_kind : kind }.
@@ -144,5 +275,5 @@ Definition U_MANIFEST := 1. Definition U_VIDEO := 2. Definition U_AUDIO := 4. De
 Definition forwarded (m : Z) (r : orow) (differs_from_default : bool) : bool :=
   differs_from_default && negb (Z.land (o_usage r) m =? 0).
 Definition proved_kind (k : kind) : bool :=
-  match k with KBool | KIntOrNone | KIntDefault _ | KStrOrNone | KStr | KList => true | _ => false end.
+  match k with KBool | KIntOrNone | KIntDefault _ | KStrOrNone | KStr | KList | KUrl | KErrors | KAst | KDrm => true | _ => false end.
 Definition modelled_kind (k : kind) : bool := match k with KUnknown => false | _ => true end.
